@@ -23,6 +23,9 @@ pub struct Step {
     /// when the request must be refused anyway: additionally carry an option value the server cannot honour (index into BAD_OPTS)
     #[serde(default)]
     pub bad_opt: Option<u8>,
+    /// read request of an existing file: before the request the file is replaced on disk (behind the server's back) by this many bytes
+    #[serde(default)]
+    pub replaced_len: Option<u16>,
 }
 
 /// option values the server never acknowledges; a request that must be refused is refused with or without them
@@ -118,6 +121,13 @@ fn run_case(dir: &Path, c: &Case) -> Result<Vec<&'static str>, (String, String)>
         let cl = Client::new();
         let (model, real_dir) = if st.write { (if c.distinct { &mut model_recv } else { &mut model_send }, &recv) } else { (&mut model_send, &send) };
         let exists = model.contains_key(&key);
+        if let (false, true, Some(n)) = (st.write, exists, st.replaced_len) {
+            // the served file changes between two requests: size and content of the next download are the new ones
+            let fresh = content(c.seed ^ (0x5eed + i as u64 * 31 + n as u64), n as usize % 4000);
+            std::fs::write(real_dir.join(&key), &fresh).unwrap();
+            model.insert(key.clone(), fresh);
+            classes.push("file-replaced-between-requests");
+        }
         let must_refuse = if st.write { c.read_only || (exists && !c.overwrite) } else { !exists };
         let mut req_opts = st.opts.clone();
         if let (true, Some(b)) = (must_refuse, st.bad_opt) {
@@ -189,6 +199,16 @@ fn run_case(dir: &Path, c: &Case) -> Result<Vec<&'static str>, (String, String)>
                         Err(e) => return Err(("accepted-upload-failed".into(), format!("{}: {}", what, e))),
                     }
                 } else {
+                    // an acknowledged tsize is the size the file has now (whatever earlier requests saw)
+                    if let Some(list) = &neg.oack {
+                        if let Some((_, ts)) = list.iter().find(|(o, _)| *o == crate::refcodec::ROpt::Tsize) {
+                            let want = model.get(&key).unwrap().len() as u64;
+                            if *ts != want {
+                                return Err(("oack-tsize".into(), format!("{}: OACK tsize {} but the file holds {} bytes", what, ts, want)));
+                            }
+                            classes.push("download-tsize-checked");
+                        }
+                    }
                     let mut srcs = vec![];
                     match wclient::download(&cl, &neg, first_data, &mut srcs) {
                         Ok(got) => {
@@ -290,11 +310,11 @@ fn opts() -> BoxedStrategy<Vec<(String, String)>> {
 }
 
 pub fn strategy() -> BoxedStrategy<Case> {
-    let step = (any::<bool>(), 0u8..11, opts(), prop::sample::select(vec![0usize, 1, 40, 100, 512, 600, 2000, 3500]), prop_oneof![9 => Just(None), 1 => (0usize..3).prop_map(Some)], prop_oneof![3 => Just(None), 1 => (0u8..6).prop_map(Some)]).prop_map(|(write, target, opts, upload_len, abort_after, bad_opt)| {
+    let step = (any::<bool>(), 0u8..11, opts(), prop::sample::select(vec![0usize, 1, 40, 100, 512, 600, 2000, 3500]), prop_oneof![9 => Just(None), 1 => (0usize..3).prop_map(Some)], prop_oneof![3 => Just(None), 1 => (0u8..6).prop_map(Some)], prop_oneof![5 => Just(None), 1 => any::<u16>().prop_map(Some)]).prop_map(|(write, target, opts, upload_len, abort_after, bad_opt, replaced_len)| {
         // small blksize with a long upload would need hundreds of round trips
         let upload_len = if opts.iter().any(|(n, v)| n == "blksize" && v == "8") { upload_len.min(100) } else { upload_len };
         let opts: Vec<(String, String)> = opts.into_iter().map(|(n, v)| if v == "LEN" { (n, if write { upload_len.to_string() } else { "0".to_string() }) } else { (n, v) }).collect();
-        Step { write, target, opts, upload_len, abort_after, bad_opt }
+        Step { write, target, opts, upload_len, abort_after, bad_opt, replaced_len }
     });
     (prop_oneof![3 => Just(false), 1 => Just(true)], any::<bool>(), any::<bool>(), any::<bool>(), any::<bool>(), proptest::collection::vec(step, 1..12), any::<u64>())
         .prop_map(|(read_only, overwrite, keep, single, distinct, steps, seed)| Case {
@@ -325,7 +345,7 @@ fn decision_table() -> Vec<Case> {
                         single,
                         distinct,
                         // the request under test, then a read of a served file (the server still works and serves the right bytes)
-                        steps: vec![Step { write, target, opts: vec![], upload_len: 700, abort_after: None, bad_opt }, Step { write: false, target: 0, opts: vec![], upload_len: 0, abort_after: None, bad_opt: None }],
+                        steps: vec![Step { write, target, opts: vec![], upload_len: 700, abort_after: None, bad_opt, replaced_len: None }, Step { write: false, target: 0, opts: vec![], upload_len: 0, abort_after: None, bad_opt: None, replaced_len: None }],
                         seed: 6 + bits as u64 * 100 + target as u64,
                     });
                 }
@@ -336,7 +356,7 @@ fn decision_table() -> Vec<Case> {
 }
 
 pub fn run(ctx: &Ctx) {
-    ctx.set_rule("exhaustive: the whole decision table once (32 configurations x RRQ/WRQ x 11 targets x {plain, with an unhonourable option value}, one request per fresh server); model-based random: per case a fresh real tftpd with a generated configuration {read-only, overwrite, keep-on-error, single/multi port, shared/distinct directories} and a history of 1-11 requests, each RRQ or WRQ of a target in {existing short, existing long, missing, in subdirectory existing/missing, existing zero-length, leading-slash spelling} with one of 7 option sets, and - where the request must be refused - in a quarter of the steps additionally an option value the server cannot honour (blksize 7/65465, timeout 0/256, windowsize 0/65536: the refusal must come all the same); uploads of 0..3500 bytes are completed (10% are aborted by a client ERROR). A reference decision table predicts refusal (ERROR 2 read-only / ERROR 6 exists without overwrite / ERROR 1 not found - from the listening port, followed by nothing) or acceptance; a model filesystem is updated and compared with the real send and receive trees (every file, every byte) after every step, so a refused request that changes anything, an overwrite that leaves old bytes behind, or a wrong download is caught at the step where it happens. Non-trivial = the history contains a refusal and a completed transfer; distinct = distinct cases.");
+    ctx.set_rule("exhaustive: the whole decision table once (32 configurations x RRQ/WRQ x 11 targets x {plain, with an unhonourable option value}, one request per fresh server); model-based random: per case a fresh real tftpd with a generated configuration {read-only, overwrite, keep-on-error, single/multi port, shared/distinct directories} and a history of 1-11 requests, each RRQ or WRQ of a target in {existing short, existing long, missing, in subdirectory existing/missing, existing zero-length, leading-slash spelling} with one of 7 option sets, and - where the request must be refused - in a quarter of the steps additionally an option value the server cannot honour (blksize 7/65465, timeout 0/256, windowsize 0/65536: the refusal must come all the same); uploads of 0..3500 bytes are completed (10% are aborted by a client ERROR); before one read request in six the served file is replaced on disk, and an acknowledged tsize must be the size the file has at that moment. A reference decision table predicts refusal (ERROR 2 read-only / ERROR 6 exists without overwrite / ERROR 1 not found - from the listening port, followed by nothing) or acceptance; a model filesystem is updated and compared with the real send and receive trees (every file, every byte) after every step, so a refused request that changes anything, an overwrite that leaves old bytes behind, or a wrong download is caught at the step where it happens. Non-trivial = the history contains a refusal and a completed transfer; distinct = distinct cases.");
     let dirs = DirPool::new(ctx, "c06");
     let table = decision_table();
     enumerate(ctx, "exh-decision-table", &table, true, |c, o| dirs.with(|d| judge(d, c, o)));
